@@ -46,6 +46,13 @@ for i in 1 2 3; do run mutants/eq-w4R4-$i.patch C19 quiet; done
 # wave 7: more correct refactorings (atomics-heavy queues; collections and agents)
 for i in 1 2 3; do run mutants/eq-w7R5-$i.patch C04 quiet; run mutants/eq-w7R5-$i.patch C05 quiet; done
 for i in 1 2 3; do run mutants/eq-w7R6-$i.patch C19 quiet; done
+# wave 8: correct refactorings using the constructs the instrumenter learnt after its review
+run mutants/eq-w8R7-1.patch C11 quiet; run mutants/eq-w8R7-1.patch C12 quiet
+run mutants/eq-w8R7-2.patch C06 quiet
+run mutants/eq-w8R7-3.patch C04 quiet; run mutants/eq-w8R7-3.patch C05 quiet; run mutants/eq-w8R7-3.patch C06 quiet
+run mutants/eq-w8R8-1.patch C19 quiet; run mutants/eq-w8R8-1.patch C04 quiet
+run mutants/eq-w8R8-2.patch C19 quiet
+run mutants/eq-w8R8-3.patch C11 quiet; run mutants/eq-w8R8-3.patch C12 quiet; run mutants/eq-w8R8-3.patch C19 quiet
 # the two correct variants written by the reviewing sub-agent (former false alarms)
 run mutants/eq-review-fork-unbuffered-join.patch C06 quiet
 run mutants/eq-review-removehead-busy-wait.patch C05 quiet
